@@ -54,6 +54,7 @@ def run_unit(A, unit, rep, tier):
                     check_flush(A, rep, func, cls, force)
     elif kind == "flush_buffer":
         check_flush_buffer(A, rep)
+        check_metadata_writers(A, rep)
     else:
         check_context(A, rep)
 
@@ -112,6 +113,40 @@ def check_flush(A, rep, func, cls, force):
         else:
             rep.fail("C07.b", norm_key("C07.b", func.qualname, f"force={force}"),
                      f"{func.qualname} (force={force}) can leave - normally or by an exception - with the file's buffer entry still present and still counted", g.witness(w or []), label)
+
+
+def check_metadata_writers(A, rep):
+    """(f) the entry's metadata baseline is written only when the entry is
+    created from the file, or re-read right after this process wrote the file."""
+    import ast
+    from ..model import ABC_MOD
+    from ..interp import stmt_text
+    n_sites = 0
+    for f in A.model.functions:
+        if f.module.name == ABC_MOD:
+            continue
+        for n in ast.walk(f.node):
+            hit = None
+            if isinstance(n, ast.Assign):
+                for t in n.targets:
+                    if isinstance(t, ast.Subscript) and isinstance(t.slice, ast.Constant) and t.slice.value == "metadata":
+                        hit = n
+            if isinstance(n, ast.Dict) and any(isinstance(k, ast.Constant) and k.value == "metadata" for k in n.keys):
+                hit = n
+            if hit is None:
+                continue
+            n_sites += 1
+            st = hit
+            while not isinstance(st, ast.stmt):
+                st = st._parent
+            okw = f.name == "_initialize_data_in_buffer" or f.name == "_flush"
+            if okw:
+                rep.ok("C07.f", f"C07.f {f.qualname}: metadata baseline written at entry creation / after this process's own write")
+            else:
+                rep.fail("C07.f", norm_key("C07.f", f.qualname, stmt_text(st)),
+                         f"{f.qualname} rewrites the buffered entry's metadata baseline (`{stmt_text(st)}`): a foreign change made before that point is adopted as the baseline and silently overwritten at the flush",
+                         [f"{f.module.path}:{st.lineno}: {stmt_text(st)}"], f.qualname)
+    rep.floor("metadata baseline write sites", n_sites, 3)
 
 
 def check_flush_buffer(A, rep):
